@@ -78,7 +78,8 @@ type Session struct {
 	QDB     []int // database bound to each queued command at queue time
 	Abort   bool  // a command was rejected while queueing
 	Watch   map[wkey]bool
-	WDirty  bool // some watched key was modified
+	WSnap   map[wkey]string // what each watched key looked like when it was first watched
+	WDirty  bool            // some watched key was modified
 	Blocked bool // connection is parked in a blocking command (model-level)
 	LibName string
 	LibVer  string
@@ -131,6 +132,10 @@ func (m *Model) Clone() *Model {
 		ns.Watch = make(map[wkey]bool, len(s.Watch))
 		for k, v := range s.Watch {
 			ns.Watch[k] = v
+		}
+		ns.WSnap = make(map[wkey]string, len(s.WSnap))
+		for k, v := range s.WSnap {
+			ns.WSnap[k] = v
 		}
 		c.Sess = append(c.Sess, &ns)
 	}
@@ -236,6 +241,43 @@ func (m *Model) Touched() [][2]string {
 }
 
 func (m *Model) get(db int, key string) *Obj { return m.DBs[db][key] }
+
+// keySnap renders the complete observable state of one key (value and deadline).
+func (m *Model) keySnap(db int, key string) string {
+	o := m.DBs[db][key]
+	if o == nil || (o.Exp != 0 && o.Exp <= m.Now) {
+		return "none"
+	}
+	var h, z []string
+	for k, v := range o.H {
+		h = append(h, k+"="+v)
+	}
+	for k := range o.Z {
+		z = append(z, k)
+	}
+	sort.Strings(h)
+	sort.Strings(z)
+	return fmt.Sprintf("%c|%q|%q|%q|%q|exp=%d", o.T, o.S, o.L, h, z, o.Exp)
+}
+
+// WatchTag classifies the watch state of a session for finding signatures: a transaction whose
+// watched keys were all modified AND put back to what they were when watched is the one case the
+// implementation's stamp comparison cannot see (recorded as a known finding of C10).
+func (m *Model) WatchTag(sess int) string {
+	s := m.Sess[sess]
+	switch {
+	case len(s.Watch) == 0:
+		return "nowatch"
+	case !s.WDirty:
+		return "watch-clean"
+	}
+	for w := range s.Watch {
+		if m.keySnap(w.db, w.key) != s.WSnap[w] {
+			return "watch-dirty"
+		}
+	}
+	return "watch-dirty-but-restored"
+}
 
 func (m *Model) del(db int, key string) bool {
 	if _, ok := m.DBs[db][key]; ok {
